@@ -231,6 +231,10 @@ func BuildMatrix(sp RunnerSpec, s int) [][]Cell {
 			fails = s - d.PassCount
 		}
 		qs := make([]float64, 0, s)
+		// p2fail[i]: the overlapping item (two P-values, Pass <=> min(P1, P2) >=
+		// alpha) fails sample i through its second P-value only: P1 = Q1 is an
+		// ordinary mid-range value
+		p2fail := map[int]bool{}
 		// failing samples first: their Q is forced into the extreme bins
 		for f := 0; f < fails; f++ {
 			q := 0.0005 + 0.004*r.Float64() // P = Q < 0.01 (chi-square) or P = 2Q < 0.01 (two-sided)
@@ -238,6 +242,21 @@ func BuildMatrix(sp RunnerSpec, s int) [][]Cell {
 			if twoSided[item] && (f%2 == 1 || d.FailHigh) {
 				q = 1 - q
 				b = 9
+			}
+			if item == 3 && f%2 == 1 {
+				// fullest bin, mid-range Q1; the failure is in P2
+				mx := 0
+				for i := range bins {
+					if bins[i] > bins[mx] {
+						mx = i
+					}
+				}
+				b = mx
+				q = (float64(b) + 0.2 + 0.6*r.Float64()) / 10
+				if q < 0.02 {
+					q = 0.02
+				}
+				p2fail[len(qs)] = true
 			}
 			if bins[b] > 0 {
 				bins[b]--
@@ -273,6 +292,16 @@ func BuildMatrix(sp RunnerSpec, s int) [][]Cell {
 		for len(qs) < s {
 			qs = append(qs, 0.15+0.7*r.Float64())
 		}
+		for i, left := fails, d.AlphaEdge; i < len(qs) && left > 0; i++ {
+			if qs[i] < 0.1 {
+				// P exactly alpha: Q = 0.01 (chi-square) or 0.005 (two-sided, P = 2Q)
+				qs[i] = alpha
+				if twoSided[item] {
+					qs[i] = alpha / 2
+				}
+				left--
+			}
+		}
 		// seeded permutation over samples
 		perm := make([]int, s)
 		for i := range perm {
@@ -283,7 +312,17 @@ func BuildMatrix(sp RunnerSpec, s int) [][]Cell {
 			perm[i], perm[j] = perm[j], perm[i]
 		}
 		for i, q := range qs {
-			m[perm[i]][item] = mkCell(item, q)
+			c := mkCell(item, q)
+			if p2fail[i] {
+				c.P2 = 0.0005 + 0.004*r.Float64()
+				c.Q2 = c.P2
+				c.Pass = false
+			} else if item == 3 && c.Pass {
+				// a passing overlapping result has two different, passing pairs
+				c.P2 = 0.02 + 0.97*r.Float64()
+				c.Q2 = c.P2
+			}
+			m[perm[i]][item] = c
 		}
 		if sp.Random > 0 {
 			for k := 0; k < s; k++ {
